@@ -14,10 +14,10 @@ use std::collections::BTreeSet;
 use std::sync::Arc;
 
 /// Paths of the tree alphabet. Hidden and git-ignored ones only exist in the CLI phase.
-const PATHS: &[&str] = &["x.py", "a/x.py", "b/x.py", "b/b/x.py", "a/b/y.py", "sp ace/x.py", "d.d/x.py", "b/b/b/z.py"];
+const PATHS: &[&str] = &["x.py", "a/x.py", "b/x.py", "b/b/x.py", "a/b/y.py", "sp ace/x.py", "d.d/x.py", "b/b/b/z.py", "hid/x.py"];
 const HIDDEN: &[&str] = &[".hid/x.py", ".h.py", "a/.deep/x.py"];
 const GITIGNORED: &[&str] = &["ign/x.py", "a/ign/y.py"];
-const GLOBS: &[&str] = &["*.py", "a/**", "**/x.py", "b/x.py", "**", "b/*", "**/b/**"];
+const GLOBS: &[&str] = &["*.py", "a/**", "**/x.py", "b/x.py", "**", "b/*", "**/b/**", ".hid/**", "hid/*"];
 
 fn file_text(path: &str) -> String {
     format!("# <block name=\"{path}\">\nvalue = 1\n# </block>\n")
@@ -213,13 +213,13 @@ fn check_cli(cfg: &Cfg, c: &CliCase, sink: &Sink) {
 }
 
 pub fn run(cfg: &Cfg, sink: &Arc<Sink>) -> Report {
-    let mut report = Report::new("cases = directory trees over paths {x.py, a/x.py, b/x.py, b/b/x.py, a/b/y.py, 'sp ace/x.py', d.d/x.py, b/b/b/z.py} (every file holds one block named after its path) × 0..2 positional globs × 0..2 --ignore globs from {*.py, a/**, **/x.py, b/x.py, **, b/*, **/b/**} × {no diff, diff naming any subset of ≤2 files}; library phase over an in-memory tree (all trees of ≤3 paths); CLI phase in real directories with hidden files, a .gitignore'd directory, real `git diff` output (plain edits and rename+edit with -M) and every directory of the tree as current directory; oracle: the set of files with listed blocks equals ((walk ∖ hidden ∖ git-ignored) ∩ globs ∪ files named in the diff) ∖ --ignore, with `**` implied when run without globs and without diff; non-trivial = every case");
+    let mut report = Report::new("cases = directory trees over paths {x.py, a/x.py, b/x.py, b/b/x.py, a/b/y.py, 'sp ace/x.py', d.d/x.py, b/b/b/z.py} (every file holds one block named after its path) × 0..2 positional globs × 0..2 --ignore globs from {*.py, a/**, **/x.py, b/x.py, **, b/*, **/b/**, .hid/**, hid/*} × {no diff, diff naming any subset of ≤2 files}; library phase over an in-memory tree (all trees of ≤2, thorough ≤3, paths); CLI phase in real directories with hidden files, a .gitignore'd directory, real `git diff` output (plain edits and rename+edit with -M) and every directory of the tree as current directory; oracle: the set of files with listed blocks equals ((walk ∖ hidden ∖ git-ignored) ∩ globs ∪ files named in the diff) ∖ --ignore, with `**` implied when run without globs and without diff; non-trivial = every case");
     report.assume("globset decides whether a glob matches a path (same crate, default options, as the documented forms are defined by it)");
     let thorough = cfg.tier == Tier::Thorough;
     // Library phase.
     let glob_sets = subsets_up_to(GLOBS.len(), 2);
     let mut cases = Vec::new();
-    for tree in subsets_up_to(PATHS.len(), cfg.tier.pick(3, 4)) {
+    for tree in subsets_up_to(PATHS.len(), cfg.tier.pick(2, 3)) {
         if tree.is_empty() {
             continue;
         }
@@ -239,21 +239,21 @@ pub fn run(cfg: &Cfg, sink: &Arc<Sink>) -> Report {
     let n = cases.len();
     report.phase(engine::explore("trees × globs × ignores × diffs (library, in-memory tree)", &format!("{n} cases"), Grid { cases, check: |c: &LibCase, s: &Sink| check_lib(c, s) }, sink, cfg.threads, false));
     if !thorough {
-        report.cap("quick: two globs together with two ignore globs only in the thorough tier; trees of ≤3 paths");
+        report.cap("quick: two globs together with two ignore globs only in the thorough tier; trees of ≤2 paths (thorough ≤3)");
     }
     // CLI phase.
     let all = all_paths();
     let full: Vec<usize> = (0..all.len()).collect();
     let mut trees: Vec<Vec<usize>> = vec![full.clone()];
     trees.extend((0..all.len()).map(|i| vec![i]));
-    for pair in [[2usize, 3], [1, 4], [0, 8], [3, 7], [5, 6], [9, 11], [2, 12], [10, 3]] {
+    for pair in [[2usize, 3], [1, 4], [0, 9], [3, 7], [5, 6], [10, 12], [2, 13], [11, 3], [8, 9]] {
         trees.push(pair.to_vec());
     }
     if thorough {
         trees.extend(subsets_up_to(all.len(), 3).into_iter().filter(|t| t.len() == 3));
     }
     let cli_globs: Vec<Vec<usize>> = if thorough { glob_sets.clone() } else { subsets_up_to(GLOBS.len(), 1).into_iter().chain([vec![1, 3], vec![2, 5], vec![0, 6]]).collect() };
-    let cli_ignores: Vec<Vec<usize>> = vec![vec![], vec![3], vec![2], vec![6], vec![1, 5]];
+    let cli_ignores: Vec<Vec<usize>> = vec![vec![], vec![3], vec![2], vec![6], vec![1, 5], vec![7], vec![8]];
     let mut cases = Vec::new();
     for tree in &trees {
         for globs in &cli_globs {
